@@ -329,6 +329,29 @@ ADvVisit(e) ==
        /\ obs' = Obs("dv_visit", props, Judge(r.seg, props, e.res.kind, val, exp, <<>>), exp, e.res)
        /\ UNCHANGED <<segs, files, pls, its, bms, built, digs>>
 
+\* dictionary iterators that stay open across calls (kept in the readers table under their own key space):
+\* each yields the entries of its range in order, whatever other iterators of the same dictionary do
+ADitOpen(e) ==
+    LET c == segs[e.seg].c IN
+    /\ e.seg \in DOMAIN segs
+    /\ dvrs' = IF e.res.kind = "ok"
+               THEN Put(dvrs, e.r, [seg |-> e.seg, entries |-> DictRange(c, e.field, e.lo, e.hi, e.aut), idx |-> 0])
+               ELSE dvrs
+    /\ obs' = Obs("dit_open", {"C08"}, Judge(e.seg, {"C08"}, e.res.kind, 0, 0, 0), <<>>, e.res)
+    /\ UNCHANGED <<segs, files, pls, its, bms, built, digs>>
+
+ADitNext(e) ==
+    LET r == dvrs[e.r]
+        exp == IF r.idx < Len(r.entries)
+               THEN [end |-> FALSE, term |-> r.entries[r.idx + 1].term, count |-> r.entries[r.idx + 1].count]
+               ELSE [end |-> TRUE, term |-> <<>>, count |-> -1]
+        val == [end |-> e.res.end, term |-> e.res.term, count |-> e.res.count]
+        props == {"C08", "C13"} \cup KindProp(r.seg)
+    IN /\ e.r \in DOMAIN dvrs
+       /\ dvrs' = [dvrs EXCEPT ![e.r].idx = IF @ < Len(r.entries) THEN @ + 1 ELSE @]
+       /\ obs' = Obs("dit_next", props, Judge(r.seg, props, e.res.kind, val, exp, [end |-> TRUE, term |-> <<>>, count |-> -1]), exp, e.res)
+       /\ UNCHANGED <<segs, files, pls, its, bms, built, digs>>
+
 AMatch(e) ==
     LET c == segs[e.seg].c
         exp == Matching(c, e.pairs)
